@@ -1806,22 +1806,34 @@ func ruleCOPY3(c *Ctx) {
 		return made == nil
 	})
 	c.check(made == nil, "closure-copy/cells-shared", fd, "the copy refers to the same captured variables as the original", "CompiledFunction.Copy makes variable cells of its own: a copied closure over a local no longer sees writes through the original (and the other way round), while a copied function that refers to a global still does - the same statements then compute different values at top level and inside a function or module body")
-	// and it does hand them on
-	keeps := containsNode(fd.Body, func(n ast.Node) bool {
-		kv, ok := n.(*ast.KeyValueExpr)
-		if !ok || w.Src(kv.Key) != "Free" {
+	// and it does hand them on: the receiver's list of cells is read, and the
+	// copy's Free field is given a value
+	reads := containsNode(fd.Body, func(n ast.Node) bool {
+		e, ok := n.(ast.Expr)
+		if !ok {
 			return false
 		}
-		return containsNode(kv.Value, func(m ast.Node) bool {
-			f, _ := func() (*types.Var, ast.Expr) {
-				if e, ok := m.(ast.Expr); ok {
-					return FieldSel(p, e)
-				}
-				return nil, nil
-			}()
-			return f != nil && f.Name() == "Free"
-		})
+		f, base := FieldSel(p, e)
+		if f == nil || f.Name() != "Free" {
+			return false
+		}
+		id, ok := ast.Unparen(base).(*ast.Ident)
+		return ok && fd.Recv != nil && len(fd.Recv.List[0].Names) == 1 && p.TypesInfo.ObjectOf(id) == p.TypesInfo.Defs[fd.Recv.List[0].Names[0]]
 	})
+	sets := containsNode(fd.Body, func(n ast.Node) bool {
+		switch x := n.(type) {
+		case *ast.KeyValueExpr:
+			return w.Src(x.Key) == "Free"
+		case *ast.AssignStmt:
+			for _, l := range x.Lhs {
+				if f, _ := FieldSel(p, l); f != nil && f.Name() == "Free" {
+					return true
+				}
+			}
+		}
+		return false
+	})
+	keeps := reads && sets
 	c.check(keeps, "closure-copy/cells-handed-on", fd, "Free of the copy is built from the receiver's Free", "the copy's captured-variable list is not built from the receiver's")
 }
 
@@ -1966,5 +1978,134 @@ func ruleSEM4(c *Ctx) {
 	})
 	if n < 1 {
 		c.fail("synthesized-node/count", nil, "the tabled desugaring of IncDecStmt was not found")
+	}
+}
+
+// JSON.8 (C18): every string the decoder hands out — an object key or a
+// string value — is the result of unquote / unquoteBytes on the token's
+// bytes, on every path. unquote is where escapes are resolved and where
+// malformed UTF-8 becomes U+FFFD, as in encoding/json; a shortcut that strips
+// the quotes itself yields other data for some valid documents.
+func ruleJSON8(c *Ctx) {
+	w := c.W
+	p := w.JSON
+	fromUnquote := func(fd *ast.FuncDecl, e ast.Expr) (bool, ast.Node) {
+		var rec func(e ast.Expr, depth int) (bool, ast.Node)
+		rec = func(e ast.Expr, depth int) (bool, ast.Node) {
+			e = ast.Unparen(e)
+			if depth > 4 {
+				return false, e
+			}
+			if call, ok := e.(*ast.CallExpr); ok && len(call.Args) == 1 && p.TypesInfo.Types[call.Fun].IsType() {
+				return rec(call.Args[0], depth+1)
+			}
+			id, ok := e.(*ast.Ident)
+			if !ok {
+				return false, e
+			}
+			obj := p.TypesInfo.ObjectOf(id)
+			defs := 0
+			var bad ast.Node
+			ast.Inspect(fd.Body, func(n ast.Node) bool {
+				as, ok := n.(*ast.AssignStmt)
+				if !ok {
+					return true
+				}
+				for i, l := range as.Lhs {
+					lid, ok := l.(*ast.Ident)
+					if !ok || p.TypesInfo.ObjectOf(lid) != obj {
+						continue
+					}
+					defs++
+					if len(as.Rhs) == 1 && len(as.Lhs) == 2 && i == 0 {
+						if call, ok := ast.Unparen(as.Rhs[0]).(*ast.CallExpr); ok {
+							if f := Callee(p, call); f != nil && f.Pkg() == p.Types && (f.Name() == "unquote" || f.Name() == "unquoteBytes") {
+								continue
+							}
+						}
+					}
+					if len(as.Rhs) == len(as.Lhs) {
+						if ok2, _ := rec(as.Rhs[i], depth+1); ok2 {
+							continue
+						}
+					}
+					if bad == nil {
+						bad = as
+					}
+				}
+				return true
+			})
+			if defs == 0 {
+				return false, id
+			}
+			return bad == nil, bad
+		}
+		return rec(e, 0)
+	}
+	// object keys
+	obj := w.FuncDecl(p, "decodeState.object")
+	if obj == nil {
+		c.anchor("(*decodeState).object")
+		return
+	}
+	nKeys := 0
+	ast.Inspect(obj.Body, func(n ast.Node) bool {
+		as, ok := n.(*ast.AssignStmt)
+		if !ok {
+			return true
+		}
+		for _, l := range as.Lhs {
+			ix, ok := l.(*ast.IndexExpr)
+			if !ok {
+				continue
+			}
+			if _, isMap := p.TypesInfo.TypeOf(ix.X).Underlying().(*types.Map); !isMap {
+				continue
+			}
+			nKeys++
+			good, at := fromUnquote(obj, ix.Index)
+			if good {
+				c.ok("object-key-unquoted", ix, "the key is unquote's result on every path")
+			} else {
+				c.fail("object-key-unquoted", at, "an object key reaches the map without going through unquote ("+w.Src(at)+"): escapes are not resolved or malformed UTF-8 is kept as it is, where encoding/json yields U+FFFD — other data for a valid document")
+			}
+		}
+		return true
+	})
+	if nKeys == 0 {
+		c.anchor("the map store of (*decodeState).object")
+	}
+	// string values
+	lit := w.FuncDecl(p, "decodeState.literal")
+	if lit == nil {
+		c.anchor("(*decodeState).literal")
+		return
+	}
+	nStr := 0
+	ast.Inspect(lit.Body, func(n ast.Node) bool {
+		cl, ok := n.(*ast.CompositeLit)
+		if !ok {
+			return true
+		}
+		if tn, _ := namedName(p.TypesInfo.TypeOf(cl)); tn != "String" {
+			return true
+		}
+		for _, el := range cl.Elts {
+			kv, ok := el.(*ast.KeyValueExpr)
+			if !ok || w.Src(kv.Key) != "Value" {
+				continue
+			}
+			nStr++
+			good, at := fromUnquote(lit, kv.Value)
+			if good {
+				c.ok("string-value-unquoted", cl, "the string value is unquote's result on every path")
+			} else {
+				c.fail("string-value-unquoted", at, "a string value is built without going through unquote ("+w.Src(at)+")")
+			}
+		}
+		return true
+	})
+	if nStr == 0 {
+		c.anchor("the String value built by (*decodeState).literal")
 	}
 }
